@@ -69,19 +69,47 @@ def collect_structs(s, acc):
             acc[s[1]] = s
 
 
-def struct_src(s, toplevel):
+def tuple_ty(n):
+    """the type of a phase argument made of n u8 fields (what the InstructionArgs derive produces: `(T)` is `T`)"""
+    return "()" if n == 0 else "u8" if n == 1 else "(%s)" % ", ".join(["u8"] * n)
+
+
+def comp(e, n, j):
+    return e if n == 1 else "%s.%d" % (e, j)
+
+
+def phase_count(lay, ph):
+    return sum(1 for m in lay["fields"] for x in m if c14.phase_of(x) == ph)
+
+
+def struct_src(s, toplevel, lay=None):
     name, fs = s[1], s[2]
     n = c14.nvec(s)
     out = []
     out.append("#[derive(AccountSet, Debug)]")
     out.append("#[account_set(skip_default_idl)]")
-    if n > 0 or toplevel:
+    if lay is not None:
+        # the account set of an argument layout: its phase arguments are the marked u8 fields, and every phase records
+        # what it is handed (PHASES)
+        nd = phase_count(lay, 0)
+        assert nd == n >= 1 and not any(c14.phase_of(x) != 2 for x in lay["self"])
+        assert all(c14.nvec(f) == 0 or (f[0] == "vec" and c14.nvec(f[1]) == 0) for f in fs)
+        out.append("#[decode(arg = %s)]" % tuple_ty(nd))
+        for ph, attr, extra in ((1, "validate", "extra_validation"), (3, "cleanup", "extra_cleanup")):
+            k = phase_count(lay, ph)
+            if k:
+                notes = " ".join("note_phase(%d, %s as i128);" % (ph, comp("arg", k, j)) for j in range(k))
+                out.append("#[%s(arg = %s, %s = { %s phase_ok() })]" % (attr, tuple_ty(k), extra, notes))
+    elif n > 0 or toplevel:
         out.append("#[decode(arg = [u8; %d])]" % n)
     out.append("pub struct %sAccounts {" % name)
     off = 0
     for i, f in enumerate(fs):
         if c14.nvec(f) > 0:
-            out.append("    #[decode(arg = %s)]" % arg_expr(f, off))
+            if lay is not None:
+                out.append("    #[decode(arg = note_decode(%s))]" % comp("arg", n, off))
+            else:
+                out.append("    #[decode(arg = %s)]" % arg_expr(f, off))
         off += c14.nvec(f)
         out.append("    pub f%d: %s," % (i, rty(f)))
     out.append("}")
@@ -102,7 +130,81 @@ def struct_src(s, toplevel):
     return "\n".join(out) + "\n"
 
 
+def layout_ix_src(i, lay):
+    """instruction `T<i>Ix` of an argument layout (fields x0.. : u8) over `T<i>Accounts`"""
+    s = c14.top(i)
+    n = c14.nvec(s)
+    cpi = c14.cpi_compiles(s)
+    tup = lay["tuple"]
+    fields = lay["fields"]
+
+    def fld(e, j):
+        return "%s.%d" % (e, j) if tup else "%s.x%d" % (e, j)
+
+    o = []
+    o.append("// %s" % c14.show_layout(lay))
+    o.append("#[derive(BorshSerialize, BorshDeserialize, Debug, Clone, InstructionArgs)]")
+    o.append("#[instruction_args(skip_idl)]")
+    if lay["self"]:
+        o.append("#[ix_args(%s)]" % ", ".join(lay["self"]))
+    decl = []
+    for j, m in enumerate(fields):
+        a = "#[ix_args(%s)] " % ", ".join(m) if m else ""
+        decl.append("%spub %su8" % (a, "" if tup else "x%d: " % j))
+    if tup:
+        o.append("pub struct T%dIx(%s);" % (i, ", ".join(decl)))
+    else:
+        o.append("pub struct T%dIx {" % i)
+        o += ["    %s," % d for d in decl]
+        o.append("}")
+    # the components of the run argument: the struct itself first, then the marked fields (declaration order)
+    runs = [("self", m) for m in lay["self"] if c14.phase_of(m) == 2]
+    runs += [(j, x) for j, m in enumerate(fields) for x in m if c14.phase_of(x) == 2]
+    o.append("impl StarFrameInstruction for T%dIx {" % i)
+    o.append("    type ReturnType = ();")
+    o.append("    type Accounts<'decode, 'arg> = T%dAccounts;" % i)
+    o.append("    fn process(accounts: &mut Self::Accounts<'_, '_>, run_arg: Self::RunArg<'_>, _ctx: &mut Context) -> Result<()> {")
+    o.append("        note_process(&*accounts, &run_arg);")
+    for k, (what, mark) in enumerate(runs):
+        e = comp("run_arg", len(runs), k)
+        if what == "self":
+            for j in range(len(fields)):
+                o.append("        note_phase(2, %s as i128);" % fld(e, j))
+        else:
+            o.append("        note_phase(2, %s%s as i128);" % ("*" if mark.startswith("&") else "", e))
+    if cpi:
+        o.append("        observe_cpi::<T%dAccounts, T%dIx>(&*accounts);" % (i, i))
+    else:
+        o.append("        no_cpi::<T%dAccounts>();" % i)
+    o.append("        Ok(())")
+    o.append("    }")
+    o.append("}")
+    # the client side: the decode-marked fields are the Vec lengths of the case, the other fields follow the client value
+    dec = [j for j, m in enumerate(fields) if c14.is_decode_field(m)]
+    val = [j for j, m in enumerate(fields) for x in m if c14.phase_of(x) == 1]
+    o.append("fn run_t%d(c: &[i128]) -> Vec<i128> {" % i)
+    o.append("    run::<T%dAccounts, T%dIx, %s, %s, %d>(c, |lens, cur| {" % (i, i, tuple_ty(len(dec)), tuple_ty(len(val)), n))
+    for j, m in enumerate(fields):
+        if j in dec:
+            o.append("        let x%d = lens[%d];" % (j, dec.index(j)))
+        else:
+            o.append("        let x%d = cur.next()? as u8;" % j)
+    names = ", ".join("x%d" % j for j in range(len(fields)))
+    ix = "T%dIx(%s)" % (i, names) if tup else "T%dIx { %s }" % (i, names)
+
+    def tup_of(js):
+        return "()" if not js else "x%d" % js[0] if len(js) == 1 else "(%s)" % ", ".join("x%d" % j for j in js)
+
+    o.append("        Some((%s, %s, %s))" % (ix, tup_of(dec), tup_of(val)))
+    o.append("    })")
+    o.append("}")
+    return "\n".join(o) + "\n"
+
+
 def ix_src(i):
+    lay = c14.layout_of(i)
+    if lay is not None:
+        return layout_ix_src(i, lay)
     s = c14.top(i)
     n = c14.nvec(s)
     ex = EXTRAS[i % len(EXTRAS)]
@@ -129,7 +231,10 @@ def ix_src(i):
     o.append("    }")
     o.append("}")
     o.append("fn run_t%d(c: &[i128]) -> Vec<i128> {" % i)
-    o.append("    run::<T%dAccounts, T%dIx, %s, %d>(c, |lens, extra| T%dIx { lens, extra })" % (i, i, ex, n, i))
+    o.append("    run::<T%dAccounts, T%dIx, [u8; %d], (), %d>(c, |lens, cur| {" % (i, i, n, n))
+    o.append("        let extra = <%s as ExtraBuild>::build(cur)?;" % ex)
+    o.append("        Some((T%dIx { lens, extra }, lens, ()))" % i)
+    o.append("    })")
     o.append("}")
     return "\n".join(o) + "\n"
 
@@ -140,7 +245,7 @@ HEAD = r'''//! C14 harness.  GENERATED by tools/gen_c14_harness.py from lib/prop
 //! harness (1) builds the instruction with the real client helpers (`MakeInstruction::instruction`), (2) constructs
 //! native accounts matching the metas and runs `decode_accounts` + `validate_accounts` directly, (3) runs the
 //! program's own entry path (`InstructionSet::dispatch`), whose `process` records the decoded account set, echoes the
-//! run argument and builds a CPI of the same instruction from the decoded set (`MakeCpi::cpi(..).invoke()`), the
+//! run argument (the argument layouts also record the argument EVERY phase is handed: decode, validate, run, cleanup) and builds a CPI of the same instruction from the decoded set (`MakeCpi::cpi(..).invoke()`), the
 //! metas / infos / data handed to the runtime being captured with `star_frame::verif_hooks::set_cpi_handler`.
 //!
 //! case: shape_index shape_len shape.. K lens(K) client-value-stream extra-args-stream
@@ -378,10 +483,25 @@ impl ExtraBuild for Inner {
 thread_local! {
     static OBS_TREE: RefCell<Option<Vec<i128>>> = const { RefCell::new(None) };
     static OBS_ARGS: RefCell<Option<Vec<u8>>> = const { RefCell::new(None) };
+    /// (phase, value): the argument every phase of the entry path was handed (0 decode, 1 validate, 2 run, 3 cleanup),
+    /// in the order they ran; filled by the argument layouts (instructions routing single fields to the phases)
+    static PHASES: RefCell<Vec<i128>> = const { RefCell::new(Vec::new()) };
     static OBS_CPI: RefCell<Vec<i128>> = const { RefCell::new(Vec::new()) };
     static CUR_IX: RefCell<Option<Box<dyn Any>>> = const { RefCell::new(None) };
     static CLIENT_DATA: RefCell<Vec<u8>> = const { RefCell::new(Vec::new()) };
     static PROG_INFO: Cell<Option<AccountInfo>> = const { Cell::new(None) };
+}
+
+fn note_phase(phase: i128, value: i128) {
+    PHASES.with(|p| p.borrow_mut().extend([phase, value]));
+}
+fn phase_ok() -> Result<()> {
+    Ok(())
+}
+/// decode argument of a Vec field of an argument layout: records the length the decode phase was handed
+fn note_decode(len: u8) -> usize {
+    note_phase(0, len as i128);
+    len as usize
 }
 
 fn note_process<A: Observe, E: BorshSerialize>(accounts: &A, run_arg: &E) {
@@ -479,11 +599,12 @@ fn tag_of<T>(r: std::result::Result<Result<T>, ()>, o: &mut Vec<i128>) -> Option
     }
 }
 
-fn run<A, I, E, const K: usize>(c: &[i128], mk: fn([u8; K], E) -> I) -> Vec<i128>
+/// `mk` builds the instruction from the Vec lengths and the rest of the case, and returns with it the decode and validate
+/// arguments the instruction's marked fields hold (for the direct decode + validate of step B)
+fn run<A, I, D, V, const K: usize>(c: &[i128], mk: fn([u8; K], &mut Cur) -> Option<(I, D, V)>) -> Vec<i128>
 where
-    A: ClientBuild + Observe + for<'a> AccountSetDecode<'a, [u8; K]> + AccountSetValidate<()> + 'static,
+    A: ClientBuild + Observe + for<'a> AccountSetDecode<'a, D> + AccountSetValidate<V> + 'static,
     I: Clone + 'static + BorshSerialize + StarFrameInstruction<Accounts<'static, 'static> = A> + InstructionDiscriminant<Set14>,
-    E: ExtraBuild,
 {
     let mut cur = Cur::new(c);
     let bad = |n: i128| vec![n];
@@ -497,8 +618,7 @@ where
     let Some(lens) = cur.take(K) else { return bad(-1) };
     let lens: [u8; K] = lens.iter().map(|x| *x as u8).collect::<Vec<_>>().try_into().unwrap();
     let Some(client) = A::build(&mut cur) else { return bad(-3) };
-    let Some(extra) = E::build(&mut cur) else { return bad(-3) };
-    let ix = mk(lens, extra);
+    let Some((ix, dec_arg, val_arg)) = mk(lens, &mut cur) else { return bad(-3) };
 
     let mut o = vec![];
     // A. the client instruction
@@ -531,14 +651,14 @@ where
     {
         let mut ctx = Context::new(&PID);
         let mut rest: &[AccountInfo] = &infos;
-        let dec = guarded(|| A::decode_accounts(&mut rest, lens, &mut ctx));
+        let dec = guarded(|| A::decode_accounts(&mut rest, dec_arg, &mut ctx));
         if let Some(mut set) = tag_of(dec, &mut o) {
             o.push(rest.len() as i128);
             let mut t = vec![];
             set.observe(&mut t);
             o.extend(t.iter().copied());
             tree_b = Some(t);
-            let v = guarded(|| set.validate_accounts((), &mut ctx));
+            let v = guarded(|| set.validate_accounts(val_arg, &mut ctx));
             tag_of(v, &mut o);
         }
     }
@@ -546,10 +666,12 @@ where
     OBS_TREE.with(|t| *t.borrow_mut() = None);
     OBS_ARGS.with(|t| *t.borrow_mut() = None);
     OBS_CPI.with(|t| t.borrow_mut().clear());
+    PHASES.with(|p| p.borrow_mut().clear());
     CUR_IX.with(|x| *x.borrow_mut() = Some(Box::new(ix.clone())));
     CLIENT_DATA.with(|d| *d.borrow_mut() = sol.data.clone());
     let r = guarded(|| <Set14 as InstructionSetTrait>::dispatch(&PID, &infos, &sol.data));
     tag_of(r, &mut o);
+    let phases: Vec<i128> = PHASES.with(|p| p.borrow().clone());
     let tree_c = OBS_TREE.with(|t| t.borrow_mut().take());
     match &tree_c {
         Some(t) => {
@@ -573,6 +695,10 @@ where
         }
         None => o.push(-1),
     }
+    // the argument every phase of the entry path (step C) was handed
+    o.push(-780);
+    o.push((phases.len() / 2) as i128);
+    o.extend(phases.iter().copied());
     // F. the same instruction again, with every account holding MORE privileges than the metas ask for (the caller's
     //    fee payer is signer + writable whatever the callee declares): the CPI view must not change
     o.push(-778);
@@ -707,7 +833,7 @@ def main():
     out.append("// ---- top-level account sets and their instructions ----\n")
     for i in range(len(c14.FAMILY)):
         out.append("// shape %d: %s\n" % (i, c14.show(c14.top(i))))
-        out.append(struct_src(c14.top(i), True))
+        out.append(struct_src(c14.top(i), True, c14.layout_of(i)))
         out.append(ix_src(i))
     out.append("#[derive(InstructionSet)]\n#[ix_set(use_repr, skip_idl)]\n#[repr(u8)]\npub enum Set14 {\n")
     for i in range(len(c14.FAMILY)):
